@@ -15,8 +15,10 @@ import NiftyVerif.Model.Expr
 import NiftyVerif.Props.C03Ptw
 import NiftyVerif.Props.C03Sinc
 import NiftyVerif.Lemmas.ExprCalc
+import NiftyVerif.Lemmas.ExprAdj
 
 set_option linter.unusedSimpArgs false
+set_option linter.unusedSectionVars false
 namespace NiftyVerif.C03
 open NiftyVerif NiftyVerif.Gen.Ptw NiftyVerif.Expr NiftyVerif.TranscReal
 
@@ -90,7 +92,7 @@ theorem ptw_table_hasDerivAt (f : Fn) (p : List ℝ) (x : ℝ) (h : PtwValid f p
 
 section linval
 variable {K : Type} [Zero K] [Add K] [Sub K] [Mul K] [Div K] [Neg K] [OfScientific K]
-  [LT K] [DecidableLT K] [LE K] [DecidableLE K] [Transc K]
+  [LT K] [DecidableLT K] [LE K] [DecidableLE K] [Transc K] [Conj K]
 
 theorem fn_hval_eq_val (f : Fn) (p : List K) (v : K) : f.hval p v = f.val p v := by
   cases f <;> rcases p with _ | ⟨a, _ | ⟨b, _ | ⟨c, l⟩⟩⟩ <;> rfl
@@ -117,6 +119,8 @@ theorem lin_val (e : Ex K) : ∀ (ρ : MVal K) (wm : Bool), (lin e ρ wm).val = 
   | quad d a iha => intro ρ wm; simp only [lin, eval, iha]
   | gauss data icov a iha => intro ρ wm; simp only [lin, eval, iha]
   | const en d v => intro ρ wm; rfl
+  | bil m na nb T a b iha ihb => intro ρ wm; simp only [lin, eval, iha, ihb]
+  | varcov n a b iha ihb => intro ρ wm; simp only [lin, eval, iha, ihb]
 end linval
 
 /-! ### the Jacobian is the true derivative -/
@@ -141,6 +145,8 @@ def Valid : Ex ℝ → MVal ℝ → Prop
   | .quad _ a, ρ => Valid a ρ
   | .gauss _ _ a, ρ => Valid a ρ
   | .const _ _ _, _ => True
+  | .bil _ _ _ _ a b, ρ => Valid a ρ ∧ Valid b ρ
+  | .varcov n a b, ρ => Valid a ρ ∧ Valid b ρ ∧ ∀ j, j < n → 0 < eval b ρ "" j
 
 /-- **Jacobian = true derivative.**  For every expression tree `e`, every differentiable curve `γ` in the input
     space (any multi-domain) with velocity `h` at `t = 0`, and every output entry `(k, i)`, the function
@@ -289,20 +295,52 @@ theorem lin_hasDerivAt (e : Ex ℝ) (wm : Bool) :
     intro γ h hγ hv k i
     simp only [eval, lin]
     exact hasDerivAt_const _ _
+  | bil m na nb T a b iha ihb =>
+    intro γ h hγ hv k o
+    simp only [eval, lin, single, lin_val]
+    by_cases hk : k = ""
+    · simp only [hk, if_true]
+      by_cases ho : o < m
+      · simp only [ho, if_true]
+        exact hasDerivAt_rsum na _ _ 0 (fun i => hasDerivAt_rsum nb _ _ 0 (fun j =>
+          ((iha γ h hγ hv.1 "" i).mul (ihb γ h hγ hv.2 "" j)).const_mul (ten T o i j)))
+      · simp only [ho, if_false]; exact hasDerivAt_const _ _
+    · simp only [hk, if_false]; exact hasDerivAt_const _ _
+  | varcov n a b iha ihb =>
+    intro γ h hγ hv k i
+    simp only [eval, lin, single, lin_val, log_eq]
+    by_cases hk : k = ""
+    · simp only [hk, if_true]
+      by_cases hi : i = 0
+      · simp only [hi, if_true]
+        have hb : ∀ j, j < n → eval b (γ 0) "" j ≠ 0 := fun j hj => (hv.2.2 j hj).ne'
+        have h1 := hasDerivAt_rsum n _ _ 0 (fun j =>
+          (iha γ h hγ hv.1 "" j).mul ((iha γ h hγ hv.1 "" j).mul (ihb γ h hγ hv.2.1 "" j)))
+        have h2 := hasDerivAt_rsum_lt n (fun j t => Real.log (eval b (γ t) "" j)) _ 0
+          (fun j hj => (ihb γ h hγ hv.2.1 "" j).log (hb j hj))
+        refine HasDerivAt.congr_deriv ((h1.sub h2).const_mul (0.5 : ℝ)) ?_
+        rw [← rsum_sub, ← rsum_mul_left]
+        refine rsum_congr n _ _ (fun j hj => ?_)
+        have := hb j hj
+        simp only [sci_half, Pi.mul_apply]
+        field_simp
+        ring
+      · simp only [hi, if_false]; exact hasDerivAt_const _ _
+    · simp only [hk, if_false]; exact hasDerivAt_const _ _
 
 /-! ### the metric is carried through -/
 
 /-- `prepend_jac` sandwiches the metric: for `f ∘ g` the metric is `Jgᵀ · M_f(g ρ) · Jg`, with `Jg`, `Jgᵀ` the
     TIMES / ADJOINT_TIMES of the inner Jacobian; it is present exactly when the outer operator produced one -/
 theorem metric_carried {K : Type} [Zero K] [Add K] [Sub K] [Mul K] [Div K] [Neg K] [OfScientific K]
-    [LT K] [DecidableLT K] [LE K] [DecidableLE K] [Transc K] (f g : Ex K) (ρ : MVal K) (wm : Bool) :
+    [LT K] [DecidableLT K] [LE K] [DecidableLE K] [Transc K] [Conj K] (f g : Ex K) (ρ : MVal K) (wm : Bool) :
     (lin (.chain f g) ρ wm).metric =
       ((lin f (eval g ρ) wm).metric).map (fun M h => (lin g ρ wm).adj (M ((lin g ρ wm).jac h))) := by
   simp only [lin, lin_val]
 
 /-- a Gaussian energy on top of any expression: metric `Jᵀ N J` when requested, none otherwise -/
 theorem metric_gauss {K : Type} [Zero K] [Add K] [Sub K] [Mul K] [Div K] [Neg K] [OfScientific K]
-    [LT K] [DecidableLT K] [LE K] [DecidableLE K] [Transc K] (data icov : List K) (a : Ex K) (ρ : MVal K) :
+    [LT K] [DecidableLT K] [LE K] [DecidableLE K] [Transc K] [Conj K] (data icov : List K) (a : Ex K) (ρ : MVal K) :
     (lin (.gauss data icov a) ρ true).metric =
       some (fun h => (lin a ρ true).adj (mask a.dom (fun k j => ofList icov j * (lin a ρ true).jac h k j))) ∧
     (lin (.gauss data icov a) ρ false).metric = none := by
@@ -310,20 +348,20 @@ theorem metric_gauss {K : Type} [Zero K] [Add K] [Sub K] [Mul K] [Div K] [Neg K]
 
 /-- `_OpSum`: the metrics of summed energies add (and the sum has a metric only if every summand has one) -/
 theorem metric_sum {K : Type} [Zero K] [Add K] [Sub K] [Mul K] [Div K] [Neg K] [OfScientific K]
-    [LT K] [DecidableLT K] [LE K] [DecidableLE K] [Transc K] (a b : Ex K) (ρ : MVal K) (wm : Bool)
+    [LT K] [DecidableLT K] [LE K] [DecidableLE K] [Transc K] [Conj K] (a b : Ex K) (ρ : MVal K) (wm : Bool)
     (ma mb : MVal K → MVal K) (ha : (lin a ρ wm).metric = some ma) (hb : (lin b ρ wm).metric = some mb) :
     (lin (.add a b) ρ wm).metric = some (fun h k i => ma h k i + mb h k i) := by
   simp only [lin, ha, hb]
 
 /-- `ScalingOperator.__call__`: scaling an energy by a non-negative factor scales its metric by the same factor -/
 theorem metric_scale {K : Type} [Zero K] [Add K] [Sub K] [Mul K] [Div K] [Neg K] [OfScientific K]
-    [LT K] [DecidableLT K] [LE K] [DecidableLE K] [Transc K] (c : K) (hc : (0 : K) ≤ c) (a : Ex K) (ρ : MVal K)
+    [LT K] [DecidableLT K] [LE K] [DecidableLE K] [Transc K] [Conj K] (c : K) (hc : (0 : K) ≤ c) (a : Ex K) (ρ : MVal K)
     (wm : Bool) (M : MVal K → MVal K) (ha : (lin a ρ wm).metric = some M) :
     (lin (.scale c a) ρ wm).metric = some (fun h k i => c * M h k i) := by
   simp only [lin, ha, hc, if_true, Option.map]
 
 theorem metric_sum_none {K : Type} [Zero K] [Add K] [Sub K] [Mul K] [Div K] [Neg K] [OfScientific K]
-    [LT K] [DecidableLT K] [LE K] [DecidableLE K] [Transc K] (a b : Ex K) (ρ : MVal K) (wm : Bool)
+    [LT K] [DecidableLT K] [LE K] [DecidableLE K] [Transc K] [Conj K] (a b : Ex K) (ρ : MVal K) (wm : Bool)
     (h : (lin a ρ wm).metric = none ∨ (lin b ρ wm).metric = none) :
     (lin (.add a b) ρ wm).metric = none := by
   rcases h with h | h
